@@ -191,6 +191,33 @@ def blindIslandFlags (nonNanPix minShape : Nat) (maxSummits : Option Nat) (ncomp
   (List.range ncomp).map (fun j =>
     blindFlags nonNanPix minShape (maxxed j) enough errorbars success (wcs.getD j true))
 
+/-! hand fall-backs of the flag pieces regenerated from flags.py, `estimate_lmfit_parinfo`,
+    `_fit_island`, `result_to_components`, `_refit_islands` and `fitting.errors` (same parameter
+    lists as the regenerated definitions; used only when a slice cannot be taken) -/
+def flagFITERRSMALLHand : Nat := FITERRSMALL
+def flagFITERRHand : Nat := FITERR
+def flagFIXED2PSFHand : Nat := FIXED2PSF
+def flagFIXEDCIRCULARHand : Nat := FIXEDCIRCULAR
+def flagNOTFITHand : Nat := NOTFIT
+def flagWCSERRHand : Nat := WCSERR
+def flagPRIORIZEDHand : Nat := PRIORIZED
+def estimateIsFlagGHand (nonNanPix minShape fFIXED2PSF fFITERRSMALL : Nat) : Nat :=
+  let f := if 4 ≤ nonNanPix ∧ nonNanPix ≤ 6 then 0 ||| fFIXED2PSF
+           else if nonNanPix < 4 then 0 ||| fFITERRSMALL else 0
+  if minShape ≤ 2 ∨ (f &&& fFITERRSMALL) ≠ 0 ∨ (f &&& fFIXED2PSF) ≠ 0 then f ||| fFIXED2PSF else f
+def summitFlagGHand (isFlag i maxSummits fNOTFIT fFIXED2PSF : Nat) : Nat :=
+  if i ≥ maxSummits then (isFlag ||| fNOTFIT) ||| fFIXED2PSF else isFlag
+def fitIsFlagGHand (nonBlankPix freeVars errorbars success fNOTFIT fFITERR : Nat) : Nat :=
+  if nonBlankPix < freeVars ∨ freeVars = 0 then 0 ||| fNOTFIT
+  else
+    let f := if errorbars = 0 then 0 ||| fFITERR else 0
+    if success = 0 then f ||| fFITERR else f
+def componentFlagsGHand (isFlag modelFlags wcsFinite fWCSERR : Nat) : Nat :=
+  if wcsFinite = 0 then (isFlag ||| modelFlags) ||| fWCSERR else isFlag ||| modelFlags
+def refitMarkGHand (rowFlags stage fPRIORIZED fFIXED2PSF : Nat) : Nat :=
+  if stage < 2 then (rowFlags ||| fPRIORIZED) ||| fFIXED2PSF else rowFlags ||| fPRIORIZED
+def errMaskGHand (fNOTFIT fFITERR : Nat) : Nat := fNOTFIT ||| fFITERR
+
 /-- `_refit_islands`: the island flag is the input flag word of the last source of the group, the
     model flag is 0 or NOTFIT (no finite pixel near the component), then PRIORIZED, and FIXED2PSF
     when `stage < 2`. -/
